@@ -9,7 +9,7 @@
    Sources mirrored:
      impact_excitation.pyx  ExcitationLine.emission / _populate_cache        (lines 79-127)
      recombination.pyx      RecombinationLine.emission / _populate_cache     (lines 79-130)
-     thermal_cx.pyx         ThermalCXLine.emission / _populate_cache         (lines 82-156)
+     thermal_cx.pyx         ThermalCXLine.emission / _populate_cache         (lines 82-158)
      total_radiated_power.pyx TotalRadiatedPower.__init__/emission/_populate_cache (lines 58-160)
      tools/emitters/radiation_function.pyx RadiationFunction.emission_function (lines 63-76)
      utility/constants.pyx  RECIP_4_PI                                                          *)
@@ -93,12 +93,19 @@ Definition is_donor (receiver s : species) : bool :=
   negb (key_eqb (s_elem receiver) (s_charge receiver) s) && Z.ltb (s_charge s) (s_znum s).
 Definition donors (receiver : species) (comp : composition) : list species := filter (is_donor receiver) comp.
 
-Definition tcx_term (P : provider) (l : line) (ne te : Q) (d : species) : Q :=
+(* donor_density * rate.evaluate(ne, te, donor_temperature) *)
+Definition tcx_raw_term (P : provider) (l : line) (ne te : Q) (d : species) : Q :=
   s_dens d * tcx_pec P (s_elem d) (s_charge d) (l_elem l) (l_charge l + 1) (l_trans l) ne te (s_temp d).
 
-(* the loop  weighted_rate += donor_density * rate.evaluate(ne, te, donor_temperature) *)
+(* the contribution of one donor: nothing when its density is non-positive (the donor is skipped before its
+   temperature is sampled and before the rate is evaluated) *)
+Definition tcx_term (P : provider) (l : line) (ne te : Q) (d : species) : Q :=
+  if Qle_bool (s_dens d) 0 then 0 else tcx_raw_term P l ne te d.
+
+(* the loop:  if donor_density <= 0.0: continue
+              weighted_rate += donor_density * rate.evaluate(ne, te, donor_temperature) *)
 Definition tcx_weighted (P : provider) (l : line) (ne te : Q) (ds : list species) : Q :=
-  fold_left (fun acc d => acc + tcx_term P l ne te d) ds 0.
+  fold_left (fun acc d => if Qle_bool (s_dens d) 0 then acc else acc + tcx_raw_term P l ne te d) ds 0.
 
 Definition thermalcx_radiance (P : provider) (l : line) (ne te : Q) (comp : composition) : outcome :=
   match comp_get comp (l_elem l) (l_charge l + 1) with
@@ -110,12 +117,6 @@ Definition thermalcx_radiance (P : provider) (l : line) (ne te : Q) (comp : comp
     if Qle_bool nr 0 then Skip else
     Emit (k4pi * tcx_weighted P l ne te (donors receiver comp) * nr)
   end.
-
-(* the behaviour the property text asks for: a donor whose density or temperature is non-positive
-   contributes nothing (used only to state what the current code does NOT do, see
-   Proofs/C03_Lines.v, thermalcx_negative_donor_refuted) *)
-Definition tcx_term_guarded (P : provider) (l : line) (ne te : Q) (d : species) : Q :=
-  if Qle_bool (s_dens d) 0 then 0 else if Qle_bool (s_temp d) 0 then 0 else tcx_term P l ne te d.
 
 (* ---------------------------------------------------------------------------------------- *)
 (* TotalRadiatedPower                                                                       *)
